@@ -14,6 +14,11 @@ Definition idx_step (ndim : nat) : list C06.Model.idx :=
   repeat (C06.Model.ISl (mkSl None None None)) (ndim - 1)
   ++ [C06.Model.ISl (mkSl (Some 1) None (Some 2))].
 Definition idx_last : list C06.Model.idx := [C06.Model.IEll; C06.Model.IInt (-1)].
+(* img.dataobj[..., 0]: only the first slab is read, a file cut behind it still answers *)
+Definition idx_first : list C06.Model.idx := [C06.Model.IEll; C06.Model.IInt 0].
+(* the reads of the sweep: 0 = [..., -1], 1 = [:, ..., :, 1::2], 2 = [..., 0] *)
+Definition idx_sel (sel : Z) (ndim : nat) : list C06.Model.idx :=
+  if sel =? 1 then idx_step ndim else if sel =? 2 then idx_first else idx_last.
 
 (* fileslice(fileobj, index, shape, dtype, offset, order='F'): None = an exception *)
 Definition partial_read (file : list Z) (ix : list C06.Model.idx) (shape : list Z) (w off : Z)
@@ -24,7 +29,77 @@ Definition partial_read (file : list Z) (ix : list C06.Model.idx) (shape : list 
   end.
 
 (* load (header readable: `loaded`) then read the slice *)
-Definition decode_partial (loaded : bool) (file : list Z) (step : bool) (shape : list Z) (w off : Z)
+Definition decode_partial (loaded : bool) (file : list Z) (sel : Z) (shape : list Z) (w off : Z)
   : option (list Z * list Z) :=
-  if loaded then partial_read file (if step then idx_step (length shape) else idx_last) shape w off
+  if loaded then partial_read file (idx_sel sel (length shape)) shape w off
+  else None.
+
+(* ------------------------------------------------------------------ the file as a READER
+   fileslice only ever does `fileobj.seek(off); fileobj.read(len)`.  A compressed stream that has
+   run out does not return fewer bytes like a plain file: bz2 and zstd RAISE (EOFError), in the
+   read or already in the seek.  `rd off len` is that pair of calls: Ok bytes | Err (raised).
+   read_all_r / read_segments_r / fileslice_r are read_all / read_segments / fileslice_h of
+   coq/C06/Model.v with `fread_at file` replaced by `rd` (fileslice_r_plain in LemmasSlice.v:
+   they coincide for rd := fread_at file). *)
+Section Reader.
+  Variable rd : Z -> Z -> C06.Model.res (list Z).
+
+  Fixpoint read_all_r (segs : list C06.Model.seg) : C06.Model.res (list Z) :=
+    match segs with
+    | [] => C06.Model.Ok []
+    | (o, l) :: r =>
+        C06.Model.bind (rd o l) (fun b => C06.Model.bind (read_all_r r) (fun t => C06.Model.Ok (b ++ t)))
+    end.
+
+  Definition read_segments_r (segs : list C06.Model.seg) (n_bytes : Z) : C06.Model.res (list Z) :=
+    match segs with
+    | [] => if n_bytes =? 0 then C06.Model.Ok [] else C06.Model.Err C06.Model.EValue
+    | [(o, l)] =>
+        C06.Model.bind (rd o l) (fun b =>
+          if C06.Model.zlen b =? n_bytes then C06.Model.Ok b else C06.Model.Err C06.Model.EValue)
+    | _ =>
+        if n_bytes =? 0 then
+          (if forallb (fun s : C06.Model.seg => snd s =? 0) segs then C06.Model.Ok []
+           else C06.Model.Err C06.Model.EValue)
+        else C06.Model.bind (read_all_r segs) (fun b =>
+          if C06.Model.zlen b =? n_bytes then C06.Model.Ok b else C06.Model.Err C06.Model.EValue)
+    end.
+
+  Definition fileslice_r (h : C06.Model.heuristic) (sl : list C06.Model.idx) (shape : list Z)
+      (itemsize offset : Z) (o : C06.Model.order) : C06.Model.res (list Z * list Z) :=
+    C06.Model.bind (C06.Model.calc_slicedefs sl shape itemsize offset o h) (fun d =>
+      let '(segs, rshape, ps) := d in
+      let n_bytes := C06.Model.prod rshape * itemsize in
+      C06.Model.bind (read_segments_r segs n_bytes) (fun b =>
+        match ps with
+        | [] => C06.Model.Ok (rshape, b)
+        | _ =>
+          let elems := C06.Model.chunks (length b) itemsize b in
+          let '(s, e) := C06.Model.np_index [] o rshape (map C06.Model.post_to_cidx ps) elems in
+          C06.Model.Ok (s, concat e)
+        end)).
+End Reader.
+
+(* the reader of a truncated stream that RAISES when it runs out: F = the plain bytes of the
+   complete file, avail = how many of them the truncated stream can still deliver.  A read that
+   would need a byte beyond avail raises; so does a read to the end of the file (len < 0). *)
+Definition rd_raising (F : list Z) (avail : Z) (off len : Z) : C06.Model.res (list Z) :=
+  if avail <? C06.Model.zlen F then
+    (if off <? 0 then C06.Model.Err C06.Model.EValue
+     else if len <? 0 then C06.Model.Err C06.Model.EIO
+     else if Z.min (off + len) (C06.Model.zlen F) <=? avail then C06.Model.fread_at F off len
+     else C06.Model.Err C06.Model.EIO)
+  else C06.Model.fread_at F off len.
+
+Definition partial_read_r (rd : Z -> Z -> C06.Model.res (list Z)) (ix : list C06.Model.idx)
+    (shape : list Z) (w off : Z) : option (list Z * list Z) :=
+  match fileslice_r rd (C06.Model.threshold_heuristic C06.Model.SKIP_THRESH) ix shape w off C06.Model.OrdF with
+  | C06.Model.Ok r => Some r
+  | C06.Model.Err _ => None
+  end.
+
+(* load (header readable from the delivered bytes: `loaded`), then the slice through a raising stream *)
+Definition decode_partial_raising (loaded : bool) (F : list Z) (avail : Z) (sel : Z) (shape : list Z) (w off : Z)
+  : option (list Z * list Z) :=
+  if loaded then partial_read_r (rd_raising F avail) (idx_sel sel (length shape)) shape w off
   else None.
